@@ -1279,6 +1279,22 @@ fn rect_conversions<T: Num>(r: Rect<T>, mn: Coord<T>, mx: Coord<T>, evals: &mut 
     if Polygon::try_from(g).is_ok() {
         return Some(Fail { check: "geometry.wrong_target", ring: String::new(), expected: "Err for Polygon::try_from(Geometry::Rect)".into(), got: "Ok".into() });
     }
+    // Rects built from a Rect: the halves of split_x / split_y satisfy min <= max again, keep the outer bounds and meet in
+    // one cut inside them (finite bounds only: with an infinite side there is no middle)
+    let fin = |v: T| v == v && v - v == T::zero();
+    if [mn.x, mn.y, mx.x, mx.y, r.width(), r.height()].iter().all(|v| fin(*v)) {
+        for (name, halves, on_x) in [("rect.split_x", r.split_x(), true), ("rect.split_y", r.split_y(), false)] {
+            *evals += 1;
+            let [h1, h2] = halves;
+            let ordered = [h1, h2].iter().all(|h| h.min().x <= h.max().x && h.min().y <= h.max().y);
+            let outer = h1.min() == mn && h2.max() == mx;
+            let (c1, c2, lo, hi) = if on_x { (h1.max().x, h2.min().x, mn.x, mx.x) } else { (h1.max().y, h2.min().y, mn.y, mx.y) };
+            let across = if on_x { h1.max().y == mx.y && h2.min().y == mn.y } else { h1.max().x == mx.x && h2.min().x == mn.x };
+            if !(ordered && outer && across && c1 == c2 && lo <= c1 && c1 <= hi) {
+                return Some(Fail { check: name, ring: String::new(), expected: format!("two Rects with min <= max that share one cut inside [{lo:?}, {hi:?}] and keep the bounds {} {}", rtext(&[mn]), rtext(&[mx])), got: format!("[{} {}] and [{} {}]", rtext(&[h1.min()]), rtext(&[h1.max()]), rtext(&[h2.min()]), rtext(&[h2.max()])) });
+            }
+        }
+    }
     None
 }
 
